@@ -136,6 +136,8 @@ IOERR_RULES = [
 MINMAX_RULES = [
     (re.compile(r'\b([A-Za-z_][A-Za-z0-9_.]*)\.min\(((?:[^()]|\([^()]*\))*)\)'), r'vmin(\1, \2)', None, 'R12-Ord::min'),
     (re.compile(r'\b([A-Za-z_][A-Za-z0-9_.]*)\.max\(((?:[^()]|\([^()]*\))*)\)'), r'vmax(\1, \2)', None, 'R12-Ord::max'),
+    (re.compile(r'\b(?:std::|core::)?cmp::min\('), 'vmin(', None, 'R12-cmp::min'),
+    (re.compile(r'\b(?:std::|core::)?cmp::max\('), 'vmax(', None, 'R12-cmp::max'),
 ]
 
 
